@@ -1,3 +1,5 @@
+mod c06;
+mod c07;
 mod c15;
 mod c19;
 mod c20;
@@ -22,6 +24,8 @@ fn verif_root() -> String {
 
 fn with_campaign(prop: &str, f: &mut dyn FnMut(&dyn Dispatch) -> i32) -> i32 {
     match prop {
+        "C06" => f(&c06::C06),
+        "C07" => f(&c07::C07),
         "C15" => f(&c15::C15),
         "C19" => f(&c19::C19),
         "C20" => f(&c20::C20),
@@ -55,7 +59,7 @@ impl<C: Campaign> Dispatch for C {
         Campaign::runs(self, tier)
     }
     fn show(&self, tier: Tier, seed: u64, idx: u64) -> String {
-        let mut rng = rng::Rng::new(rng::run_seed(seed, self.id(), idx));
+        let mut rng = rng::Rng::new(rng::run_seed(seed, self.id(), idx / self.group(tier).max(1)));
         let sc = self.generate(&mut rng, tier, idx);
         serde_json::to_string_pretty(&sc).unwrap_or_default()
     }
